@@ -156,6 +156,19 @@ def check(ctx):
         ok = False
         if v is not None and v.get('callee', {}).get('n') == 'std::min':
             ok = any(strip_casts(a).get('ref', {}).get('n') == 'engine::Search::_search_time' for a in kids(v)[1:])
+        if not ok and v is not None:
+            # `if (budget > x) budget = x;` is the same lowering
+            from rules.effects import canon as _cn
+            vs = _cn(f, v, inline=True)
+            for cond, truth in guard_facts(f, n):
+                c0 = strip_casts(cond)
+                if c0['k'] == 'BinaryOperator' and c0.get('op') in ('>', '>=', '<', '<='):
+                    a_, b_ = kids(c0)
+                    big, small = (a_, b_) if c0['op'] in ('>', '>=') else (b_, a_)
+                    if not truth:
+                        big, small = small, big
+                    if strip_casts(big).get('ref', {}).get('n') == 'engine::Search::_search_time' and _cn(f, small, inline=True) == vs:
+                        ok = True
         ctx.ob('C20.R2.budget-not-raised', '%s:_search_time' % short(f.name), ok,
                'a later definition of the time budget can only lower it (std::min with the current budget); '
                'a plain constant can exceed the clock-derived allotment', site=f.loc(n))
